@@ -11,6 +11,7 @@
 #include "../config.hpp"
 #include "../memory_input.hpp"
 #include "../rewind_mode.hpp"
+#include "../tracking_mode.hpp"
 #include "../type_list.hpp"
 
 namespace TAO_PEGTL_NAMESPACE::internal
@@ -57,7 +58,17 @@ namespace TAO_PEGTL_NAMESPACE::internal
          auto m = in.template auto_rewind< rewind_mode::required >();
 
          if( Control< Head >::template match< A, rewind_mode::optional, Action, Control >( in, st... ) ) {
-            memory_input< ParseInput::tracking_mode_v, typename ParseInput::eol_t, typename ParseInput::source_t > i2( m.inputerator(), in.current(), in.source() );
+            using input_t = memory_input< ParseInput::tracking_mode_v, typename ParseInput::eol_t, typename ParseInput::source_t >;
+            auto i2 = [ & ]() {
+               if constexpr( ParseInput::tracking_mode_v == tracking_mode::lazy ) {
+                  // A lazy inputerator is a plain pointer, the counters at the start of the match have to be handed over explicitly.
+                  const auto p = in.position( m.inputerator() );
+                  return input_t( m.inputerator(), in.current(), in.source(), p.byte, p.line, p.column );
+               }
+               else {
+                  return input_t( m.inputerator(), in.current(), in.source() );
+               }
+            }();
             return m( ( Control< Rule >::template match< A, rewind_mode::optional, Action, Control >( i2, st... ) && ... && ( i2.restart( m ), Control< Rules >::template match< A, rewind_mode::optional, Action, Control >( i2, st... ) ) ) );
          }
          return false;
